@@ -3,7 +3,7 @@ CONSTANTS
   Programs <- FamilyCyc
   QuerySeqs <- QS2
   Permute = TRUE
-  CheckOnTableHit = FALSE
-  RepairFalseResult = FALSE
+  CheckOnTableHit = TRUE
+  RepairFalseResult = TRUE
 CONSTRAINT Export
 CHECK_DEADLOCK FALSE
